@@ -5,6 +5,7 @@
 package main
 
 import (
+	"hash/fnv"
 	"fmt"
 	"strconv"
 	"strings"
@@ -511,14 +512,25 @@ func histTier(r *vh.Rng, out *vh.Out, tier string) map[string]interface{} {
 		op, cls string
 	}
 	var jobs []job
-	g.exhaustive(func(h hscen, cls string) { jobs = append(jobs, job{h.String(), cls}) })
+	// compression: a third of the histories run with snappy negotiated and a pattern of flagged / unflagged answers,
+	// chosen by a hash of the (PRNG-generated) history so that the PRNG stream is what it was
+	withZ := func(h hscen) string {
+		h.zbits = ""
+		f := fnv.New32a()
+		f.Write([]byte(h.String()))
+		if v := f.Sum32(); v%3 == 0 {
+			h.zbits = []string{"0", "1", "01", "10", "001", "110", "0110", "1001"}[(v/3)%8]
+		}
+		return h.String()
+	}
+	g.exhaustive(func(h hscen, cls string) { jobs = append(jobs, job{withZ(h), cls}) })
 	n := 4000
 	if tier == "thorough" {
 		n = 60000
 	}
 	for i := 0; i < n; i++ {
 		h, cls := g.random()
-		jobs = append(jobs, job{h.String(), cls})
+		jobs = append(jobs, job{withZ(h), cls})
 	}
 	res := make([]string, len(jobs))
 	var wg sync.WaitGroup
